@@ -67,6 +67,14 @@ def run(R):
                                     {"op": "process_mut", "x": 1, "data": data[37:120]}]
                         hs.append(h4)
                         R.count((variant, rounds, kl, s, "clone-mid-block"), trivial=False)
+                        # calls that end exactly on a block end (after the rest of a block plus whole blocks, after whole blocks only, after one block)
+                        # followed by more data: a block loop that leaves the block it produced marked as unread hands it out twice
+                        h5 = dict(h, id=R.next_id())
+                        d5 = vlib.prng_bytes(R.seed, "c03e/%s/%d" % (tag, s), 330)
+                        h5["ev"] = [{"op": "new"}] + pre + [{"op": "process", "x": 1, "data": d5[:10]}, {"op": "process_mut", "x": 1, "data": d5[10:128]}, {"op": "process", "x": 1, "data": d5[128:256]},
+                                                            {"op": "process_mut", "x": 1, "data": d5[256:320]}, {"op": "process", "x": 1, "data": d5[320:]}]
+                        hs.append(h5)
+                        R.count((variant, rounds, kl, s, "block-aligned-calls"), trivial=False)
                         if s == starts[1]:                 # positioned twice in a row, the second time one block back
                             h3 = dict(h, id=R.next_id())
                             posop = "set_counter" if wide else "seek"
@@ -103,7 +111,7 @@ def run(R):
         for e in evs[i:i + 6]:
             R.count(("engine", e["engine"], e["rounds"], len(e["key"]), len(e["nonce"]), e["op"], "ctr" in e, "ctr32" in e, "ctr32b" in e))
     R.rule = ("one history per (variant, rounds, key length, start block): [new, seek/set_counter(start), process(70), process_mut(rest)] with start in "
-              "{0,1,2^32-2,2^32-1} (IETF), {0,1,2^31-1} (XChaCha), {0,1,2^32-2,2^32-1,2^32-1+5*2^32} (64-bit counters) + seeded starts; special keys; "
+              "{0,1,2^32-2,2^32-1} (IETF), {0,1,2^31-1} (XChaCha), {0,1,2^32-2,2^32-1,2^32-1+5*2^32} (64-bit counters) + seeded starts; for two starts each also repositioning in use, a clone mid-block and calls ending exactly on block ends (10, 118, 128, 64, 10 bytes); special keys; "
               "engine queries native/portable x rounds x key 16/32 x nonce 8/12/16 with counter increments across the word boundary; all non-trivial")
     res = R.conform("TraceStream", hs, cost=sc.cost_stream, describe=describe)
     for r in res["records"][:3] + res["records"][-2:]:
